@@ -166,21 +166,22 @@ Inductive tres := TNone | TCrash | TSome (t : ty).
 (* an entry registered by MakeHash has no TypeCache: reflect.SliceOf / reflect.PtrTo on it panic *)
 Definition has_typecache (e : regentry) : bool := bound_entry e.
 
-(* type of a non-empty array from its first element x whose own type is r: GetOrCreateSliceType *)
-Definition arr_type (x : value) (r : tres) : tres :=
+(* type of a non-empty array from its first element x whose own type is r: GetOrCreateSliceType.
+   An element type without TypeCache (a plain hash, a record of a never-declared name) gives the generic
+   slice type "[]" (gotypereg.go, since b43fa74) *)
+Definition arr_fallback (x : value) (r : tres) : bool :=
   match x with
-  | VHash => TCrash
-  | _ =>
+  | VHash => true
+  | _ => match r with TSome (TStructG _ (GBare _)) => true | _ => false end
+  end.
+Definition arr_type (x : value) (r : tres) : tres :=
+  if arr_fallback x r then TSome (TNamed NEmpty)
+  else
     match r with
-    | TSome t =>
-      match t with
-      | TStructG s g => match g with GBare _ => TCrash | _ => TSome (TNamed (NSlice (NStruct s))) end
-      | TNamed n => TSome (TNamed (NSlice n))
-      end
+    | TSome t => TSome (TNamed (NSlice (regname t)))
     | TNone => TNone
     | TCrash => TCrash
-    end
-  end.
+    end.
 
 Fixpoint type_of (st : state) (v : value) : tres :=
   match v with
@@ -613,7 +614,13 @@ Definition inst_okb (st : state) (i : inst) : bool :=
 Definition invb (st : state) : bool := forallb (fun p => inst_okb st (snd p)) (st_store st).
 
 (* ---------- side conditions of the theorems (each excluded case is a listed finding) ---------- *)
-(* the instance was created with the definition its type name has NOW *)
+(* the instance was created with the definition its type name has NOW; no array whose (nested) first
+   element has a type without TypeCache *)
+Fixpoint no_fallback (st : state) (v : value) : bool :=
+  match v with
+  | VArr (x :: _) => negb (arr_fallback x (type_of st x)) && no_fallback st x
+  | _ => true
+  end.
 Definition value_clean (st : state) (v : value) : bool :=
   match v with
   | VInst j =>
@@ -624,7 +631,7 @@ Definition value_clean (st : state) (v : value) : bool :=
                  end
     | None => true
     end
-  | _ => true
+  | _ => no_fallback st v
   end.
 Definition key_clean (k : key) : bool := match k with KSym _ => true | _ => false end.
 Definition typed_inst (i : inst) : bool := match re_defn (i_fac i) with Some _ => true | None => false end.
